@@ -211,7 +211,7 @@ def obligations(tier):
         if (len(names) == 1 and (th or d <= 2)) or (th and d <= 3) or names in QUICK_PAIRS:
             for dname, n_obj in (("min", 1), ("max", 2)):
                 obs.append(Ob(f"run[{tag},{dname},k={n_obj},serial]",
-                              ob_run(names, dname, n_obj, "serial", 2 if th and d == 1 else 1), 900))
+                              ob_run(names, dname, n_obj, "serial", 2 if th and names in (("C",), ("D3",)) else 1), 900))
     for mode in ("thread", "process"):
         for names in (("C",), ("D3",)) + ((("C", "B1"), ("P3",)) if th else ()):
             obs.append(Ob(f"run[{'+'.join(names)},max,k=2,{mode}]", ob_run(names, "max", 2, mode, 1), 900))
